@@ -170,6 +170,21 @@ func mergeValues(c *Term, a, b Value) Value {
 	if c.IsFalse() {
 		return b
 	}
+	// frontend.Variable values: an interface holding a number and a bare number are the same thing
+	if ia, ok := a.(VIface); ok {
+		if iv, ok2 := ia.V.(VInt); ok2 {
+			if _, bInt := b.(VInt); bInt {
+				a = iv
+			}
+		}
+	}
+	if ib, ok := b.(VIface); ok {
+		if iv, ok2 := ib.V.(VInt); ok2 {
+			if _, aInt := a.(VInt); aInt {
+				b = iv
+			}
+		}
+	}
 	switch x := a.(type) {
 	case VInt:
 		y, ok := b.(VInt)
@@ -245,6 +260,13 @@ func mergeValues(c *Term, a, b Value) Value {
 		}}, Off: Int64C(0), Len: Ite(c, x.Len, y.Len), Cap: Ite(c, x.Len, y.Len)}
 	case VIface:
 		y, ok := b.(VIface)
+		if ok {
+			if xi, ok1 := x.V.(VInt); ok1 {
+				if yi, ok2 := y.V.(VInt); ok2 {
+					return VInt{Ite(c, xi.T, yi.T)}
+				}
+			}
+		}
 		if ok && x.Dyn != nil && y.Dyn != nil && types.Identical(x.Dyn, y.Dyn) {
 			return VIface{Dyn: x.Dyn, V: mergeValues(c, x.V, y.V)}
 		}
